@@ -1,9 +1,3 @@
-// view of the real struct: cap() = length of the underlying buffer, init() = its initialized prefix
-impl<'d, 's> BufferRef<'d, 's> {
-    spec fn cap(&self) -> nat { self.buffer@.len() }
-    spec fn init(&self) -> Seq<u8> { self.buffer@.subrange(0, *self.initialized_ as int) }
-    spec fn wf(&self) -> bool { *self.initialized_ <= self.buffer@.len() }
-}
 use vstd::std_specs::iter::IteratorSpec;
 // trusted: a slice never has more than usize::MAX elements (Rust: at most isize::MAX bytes)
 #[verifier::external_body]
